@@ -152,7 +152,7 @@ impl Check for C01 {
     fn meta(&self) -> Meta {
         Meta {
             level: "exploration",
-            rule: "1-3 generated request/response exchanges per connection (10 methods incl. CONNECT and extended CONNECT, absolute/authority-form targets, 0-8 header fields over a colliding name alphabet incl. static-table hits and misses, obs-text and blank-padded values, bodies 0..64 KiB at varint/buffer boundary sizes handed over in 0-6 pieces incl. empty pieces and multi-chunk Bufs, optional trailers; whole streams or split halves on separate tasks, split at once or after a drawn number of recv_data calls on the whole stream; sequential or concurrent) x drawn transport (chunk sizes incl. 1-byte and frame-boundary-biased, partial write acceptance incl. header-splitting and copy_to_bytes consumption, write pends, scarce stream credit, FIN in its own event, out-of-order accept, coalesced reads) x drawn task order and spurious polls; back-pressure and delay only, no faults; non-trivial = every exchange completed and >= 2 chunk deliveries; distinct = distinct schedule signatures",
+            rule: "1-3 generated request/response exchanges per connection (10 methods incl. CONNECT and extended CONNECT, absolute/authority-form targets, 0-8 header fields over a colliding name alphabet incl. static-table hits and misses, obs-text and blank-padded values, bodies 0..64 KiB at varint/buffer boundary sizes handed over in 0-6 pieces incl. empty pieces and multi-chunk Bufs, optional trailers; whole streams or split halves on separate tasks, split at once or after a drawn number of recv_data calls on the whole stream; on whole streams the server may send its response before it reads the request body; sequential or concurrent) x drawn transport (chunk sizes incl. 1-byte and frame-boundary-biased, partial write acceptance incl. header-splitting and copy_to_bytes consumption, write pends, scarce stream credit, FIN in its own event, out-of-order accept, coalesced reads) x drawn task order and spurious polls; back-pressure and delay only, no faults; non-trivial = every exchange completed and >= 2 chunk deliveries; distinct = distinct schedule signatures",
             real: &["h3 client (builder, Connection driver, SendRequest, RequestStream)", "h3 server (builder, Connection, RequestResolver, RequestStream)", "h3 connection/frame/stream/buf/proto/qpack modules", "http, bytes, tokio::sync::mpsc"],
             stub: &["QUIC transport (SimQuic, both ends)", "executor (simexec)", "applications (models following the documented call pattern)"],
             assumptions: &["header names/values are ones the http crate and h3 accept (no connection-specific fields, no content-length)", "targets are given with a scheme and authority; an empty path is expected as \"/\""],
